@@ -28,9 +28,9 @@ PROP = "C24"
 MIN_OBLIGATIONS = 400
 TC = "pandapower.create.trafo_create"
 LC = "pandapower.create.line_create"
-NOT_DECIDED = ["bounded stand-in only (fixed vectors, replaylib.createpairs): buses, switches, poly/pwl cost rows, sgens, create_line(s)_from_parameters, "
+NOT_DECIDED = ["bounded stand-in only (fixed vectors, replaylib.createpairs): switches, poly/pwl cost rows, sgens, create_line(s)_from_parameters, "
                "create_transformer(s)_from_parameters; non-existent buses and duplicate indices (the checks are shared helper functions)",
-               "loads, gens, storages, shunts, wards, impedances (sgens: bounded only, generator_type dispatch on a pandas string Series): string-valued parameters (name, type, generator_type, curve_style) keep their "
+               "buses (NaN voltage limits and the documented defaults 0.0 / 2.0 count as the same value), loads, gens, storages, shunts, wards, impedances (sgens: bounded only, generator_type dispatch on a pandas string Series): string-valued parameters (name, type, generator_type, curve_style) keep their "
                "defaults in both calls; argument values the single call refuses (UserWarning) are outside the compared domain"]
 
 KNOWN = "C24/create_transformers-drops-std-type-tap-and-shift"
@@ -251,6 +251,10 @@ def run(vc):
         bound="load, sgen, gen, storage, shunt, ward, impedance: 3-element vectors for every numeric / flag parameter of the signature, 3 patterns "
               "(all given, optional ones NaN in odd rows, required only) x 2 (empty table, table with a row that has every optional column)",
         script="from replaylib.createpairs import main_parpairs_all\nmain_parpairs_all(skip=('line', 'trafo'))\n"))
+    vc.native_standins.append(dict(
+        name="create_bus / create_buses on generated vectors",
+        bound="3 vectors of 3 buses (all given, limits partly NaN, required only)",
+        script="from replaylib.createpairs import main_buspair\nmain_buspair()\n"))
 
 
 def C25_input_error(exc):
@@ -264,6 +268,9 @@ def classify(ob, model):
 
 def replay(ob, model, finding=None):
     pair = ob.meta.get("pair", "")
+    if pair == "bus-par":
+        return {"script": f"# replay of {ob.id}\nfrom replaylib.createpairs import main_buspair\nmain_buspair()\n",
+                "description": "create_buses against the sequence of create_bus calls on generated vectors"}
     if pair.endswith("-par") and pair != "t3-par":
         return {"script": f"# replay of {ob.id}\nfrom replaylib.createpairs import main_parpair\nmain_parpair({pair[:-4]!r})\n",
                 "description": "the batch create call against the sequence of single calls on argument vectors generated from the real signature"}
